@@ -41,6 +41,13 @@ type fileSpec struct {
 	// seam for calls that would leave the simulation (a real socket dial).  The
 	// tool fails if a listed call does not occur.
 	Calls map[string]string `json:"calls,omitempty"`
+	// Types redirects a qualified type name (written pkg.Type in the source,
+	// e.g. in a type assertion) to pkg.Type of a simulation package:
+	// "net.TCPConn": "verifsim/simnet.Conn".  Code that asks whether a
+	// connection is a real TCP socket (to set a socket option) then meets the
+	// simulated socket instead of silently skipping the branch.  Optional: no
+	// occurrence is not an error.
+	Types map[string]string `json:"types,omitempty"`
 }
 
 type site struct {
@@ -169,6 +176,30 @@ func weaveFile(src, rel string, raw []byte, fs fileSpec) ([]byte, error) {
 			}
 		}
 	}
+	typeImports := map[string]string{} // import path -> local name
+	if len(fs.Types) > 0 {
+		ast.Inspect(f, func(n ast.Node) bool {
+			sel, ok := n.(*ast.SelectorExpr)
+			if !ok {
+				return true
+			}
+			x, ok := sel.X.(*ast.Ident)
+			if !ok {
+				return true
+			}
+			to, ok := fs.Types[x.Name+"."+sel.Sel.Name]
+			if !ok {
+				return true
+			}
+			dot := strings.LastIndex(to, ".")
+			path, typ := to[:dot], to[dot+1:]
+			local := "veriftype_" + filepath.Base(path)
+			typeImports[path] = local
+			sel.X = ast.NewIdent(local)
+			sel.Sel = ast.NewIdent(typ)
+			return true
+		})
+	}
 	if fs.Yields || fs.Go {
 		for _, d := range f.Decls {
 			fd, ok := d.(*ast.FuncDecl)
@@ -196,6 +227,10 @@ func weaveFile(src, rel string, raw []byte, fs fileSpec) ([]byte, error) {
 	if w.usedRT {
 		// add the import as its own declaration right after the package clause
 		imp := &ast.GenDecl{Tok: token.IMPORT, Specs: []ast.Spec{&ast.ImportSpec{Name: ast.NewIdent("verifrt"), Path: &ast.BasicLit{Kind: token.STRING, Value: strconv.Quote("verifsim/verifrt")}}}}
+		f.Decls = append([]ast.Decl{imp}, f.Decls...)
+	}
+	for path, local := range typeImports {
+		imp := &ast.GenDecl{Tok: token.IMPORT, Specs: []ast.Spec{&ast.ImportSpec{Name: ast.NewIdent(local), Path: &ast.BasicLit{Kind: token.STRING, Value: strconv.Quote(path)}}}}
 		f.Decls = append([]ast.Decl{imp}, f.Decls...)
 	}
 	var buf bytes.Buffer
